@@ -854,6 +854,15 @@ def dir1(ctx, c):
                 c.finding("PseudoOperand.translate:RMB:zero", "a count of 0 is refused",
                           "PseudoOperand.translate raises for RMB under a test on the truth / zero-ness of the count (%s): `RMB 0` reserves no bytes and is a legal statement"
                           % [strip_ver(a) for a, _ in zr[0].path.conds][-1:], where)
+        if r_ is not None and m_ in ("FCB", "FDB", "FCC", "RMB"):
+            # a data directive emits as many bytes as its operand has: no length is too long (or too short) to be emitted
+            lr = [(o, a) for o in outs_m if o.kind == "raise" for a, _ in o.path.conds if re.search(r"byte_len\(\)|hex_len\(\)|\blen\(", strip_ver(a))]
+            if lr:
+                c.finding("PseudoOperand.translate:%s:length-limit" % m_, "refused under a test on the length of the data (%s)" % strip_ver(lr[0][1])[:50],
+                          "PseudoOperand.translate raises for %s under `%s`: the directive emits its operand whatever its length - a limit on it rejects a valid statement"
+                          % (m_, strip_ver(lr[0][1])[:70]), where)
+            else:
+                c.ok("PseudoOperand.translate:%s:length-limit" % m_, "no refusal by length", where)
         if r_ is None:
             default = rets_m[0] if rets_m else None
         elif rets_m:
@@ -1513,6 +1522,23 @@ def inc1(ctx, c):
                       "(or any file whose name occurs inside a name already on the chain) is rejected as a cycle" % U(member[0]), repo.loc(fn, member[0]))
         elif member:
             c.ok("process_mnemonics:trail", "the chain is a collection of names", repo.loc(fn, member[0]))
+        # a file found on the chain is a cycle, and a cycle is reported: an INCLUDE that is skipped instead assembles a program the source does not describe, without a word
+        for m_ in member:
+            guard = next((n for n in ast.walk(loop) if isinstance(n, ast.If) and any(x is m_ for x in ast.walk(n.test))), None)
+            if guard is None:
+                continue
+            on_cycle = guard.body if isinstance(m_.ops[0], ast.In) and not any(isinstance(x, ast.UnaryOp) and isinstance(x.op, ast.Not) for x in ast.walk(guard.test)) else None
+            if on_cycle is None:
+                continue
+            ends = on_cycle[-1]
+            if any(isinstance(x, ast.Raise) for st_ in on_cycle for x in ast.walk(st_)):
+                c.ok("process_mnemonics:cycle", "a file already on the chain is reported", repo.loc(fn, guard))
+            elif isinstance(ends, (ast.Continue, ast.Pass, ast.Break)) and not any(isinstance(x, ast.Call) for st_ in on_cycle for x in ast.walk(st_)):
+                c.finding("process_mnemonics:cycle", "an INCLUDE of a file already on the chain is skipped (%s)" % type(ends).__name__.lower(),
+                          "process_mnemonics meets `%s` with `%s`: the INCLUDE line contributes nothing and nothing is reported - a file that includes itself (or a -> b -> a) "
+                          "assembles to an image with exit status 0 instead of a diagnostic" % (U(guard.test)[:50], type(ends).__name__.lower()), repo.loc(fn, guard))
+            else:
+                c.undecided("process_mnemonics:cycle", "cycle-branch-shape-not-recognised", U(ends)[:60], repo.loc(fn, guard))
         # what stands for a file on the chain identifies the file: its last path component, its stem or its case-folded name is shared by different files
         COARSE = ("basename", "splitext", "lower", "upper", "casefold", "stem", "rsplit", "split", "rpartition")
         for m_ in member:
